@@ -53,16 +53,6 @@ def _items(view):
     return [] if view in ('-', '') else view.split(',')
 
 
-def _strip_content_unused(items):
-    out = []
-    for it in items:
-        f = it.split(':')
-        if len(f) >= 4 and f[-4] == 'f':
-            f[-1] = '*'
-        out.append(':'.join(f))
-    return out
-
-
 def _view_diff(j, nv, req, iw, il, sw, sl):
     """(None, None) when the implementation's view j agrees with the specification's, else (description, kind):
     kind None            = any other difference"""
